@@ -312,6 +312,7 @@ func record(r *mc.Run, c Case, kind, detail string) {
 func TestCheck(t *testing.T) {
 	r := mc.New(t, "C01")
 	defer r.Finish()
+	r.CrashFails = true
 	if r.Replay != nil {
 		var probe struct {
 			Family string `json:"family"`
